@@ -7,6 +7,7 @@ import (
 	"io"
 	"os"
 	"os/exec"
+	"path/filepath"
 	"strings"
 	"sync"
 
@@ -22,7 +23,9 @@ type Driver struct {
 	dead  bool
 }
 
-var driverPath = "/verif/build/ocaml/vdriver"
+var rootDir = "/verif"
+
+func driverPath() string { return filepath.Join(rootDir, "build/ocaml/vdriver") }
 
 func hx(s string) string {
 	if s == "" {
@@ -43,7 +46,7 @@ func unhx(s string) string {
 }
 
 func NewDriver() *Driver {
-	cmd := exec.Command(driverPath)
+	cmd := exec.Command(driverPath())
 	cmd.Env = append(os.Environ(), "OCAMLRUNPARAM=l=8G")
 	in, _ := cmd.StdinPipe()
 	out, _ := cmd.StdoutPipe()
